@@ -148,4 +148,3 @@ func cmdList(args []string) {
 		fmt.Printf("%-70s mode=%s props=%v assumed=%v found=%v\n", k, c.Mode, c.Props, c.Assumed, found)
 	}
 }
-
